@@ -25,3 +25,10 @@ ENTRY = {
         "client.Broadcast with an unregistered id at a client that is not first in the peer list: which already-forked requests leave the process is a goroutine race in Go; the model sends them all, the driver only generates the deterministic case",
     ],
 }
+
+# which session hash the DKG protocols hand to dkg/bcast (glue outside the package): translator T-session +
+# Props/C13Session.sessions_per_ceremony
+from vlib.trans_bcastsession import bcastsession as _bs
+ENTRY["translators"] = list(ENTRY.get("translators", [])) + [_bs]
+ENTRY.setdefault("lean_props_extra", []).append("CharonV.Props.C13Session")
+ENTRY["trusted_base"] = ENTRY["trusted_base"] + ["translator T-session (vlib/trans_bcastsession.py): text scan of dkg/**/*.go for direct calls bcast.New(…, session) with balanced-parenthesis argument splitting; fails closed on any other use of bcast.New"]
